@@ -12,7 +12,10 @@ lower case, no tls block names the reserved `<default>`; the SNI name does not s
 Not assumed: existing secrets, unique declarations, any relation between namespaces.
 
 The dynamic path (`set ssl cert` / `commit ssl cert` sent to a running HAProxy instead of a reload)
-is not modelled; the harness checks on every history that the running copy equals the file on disk.
+is the satellite `Props/C15Run.lean` (`Model/C15Run.lean`: certificate in memory per FILE + crt-list of the
+last reload; `running_eq_disk`, `served_running_spec` for all histories, witness
+`content_keyed_memo_leaves_file_stale`); the harness compares on every reconciliation of every history what
+the running (simulated) HAProxy presents with the declared certificate.
 
 WHICH hosts a long-lived controller re-reads when a Secret changes (the tracker closure over
 secret—ingress—host links, for all histories of ingress add/update/delete and secret rotations) is the
